@@ -183,6 +183,21 @@ pub fn check_dt_grid(d: u32, h: u32, mi: u32, s: u32, us: u32) -> Result<bool, S
     }
 }
 
+/// Every comparison operator on two intervals of the same kind (0 = year-month, 1 = day-time)
+/// agrees with the numeric order of their counts.
+pub fn check_order_pair(kind: u8, a: i128, b: i128) -> Result<(), String> {
+    fn agree<T: PartialOrd + Ord + PartialEq>(x: &T, y: &T, want: Ordering) -> bool {
+        x.partial_cmp(y) == Some(want) && x.cmp(y) == want && (x == y) == (want == Ordering::Equal) && (x != y) == (want != Ordering::Equal) && (x < y) == (want == Ordering::Less) && (x <= y) == (want != Ordering::Greater) && (x > y) == (want == Ordering::Greater) && (x >= y) == (want != Ordering::Less)
+    }
+    let want = a.cmp(&b);
+    let ok = guarded(|| if kind == 0 { agree(&ad::ym(a as i32), &ad::ym(b as i32), want) } else { agree(&ad::dt(a as i64), &ad::dt(b as i64), want) })?;
+    if ok {
+        Ok(())
+    } else {
+        Err(format!("{} {a} vs {b}: ==, !=, <, <=, >, >=, partial_cmp or cmp disagrees with the numeric order ({want:?})", if kind == 0 { "IntervalYM" } else { "IntervalDT" }))
+    }
+}
+
 pub fn check_oob(kind: u8, v: i64) -> Result<(), String> {
     let r = guarded(|| match kind {
         0 => IntervalYM::try_from_months(v as i32).map(|x| x.months() as i64),
@@ -199,6 +214,7 @@ pub fn eval(case: &Case) -> Verdict {
     let r = match case.kind.as_str() {
         "ym" => check_ym(i[0] as i32),
         "dt" => check_dt(i[0] as i64),
+        "order_pair" => check_order_pair(i[0] as u8, i[1], i[2]),
         "ym_grid" => check_ym_grid(i[0] as u32, i[1] as u32).map(|_| ()),
         "dt_grid" => check_dt_grid(i[0] as u32, i[1] as u32, i[2] as u32, i[3] as u32, i[4] as u32).map(|_| ()),
         "oob" => check_oob(i[0] as u8, i[1] as i64),
@@ -435,6 +451,38 @@ pub fn run(ctx: &Ctx) -> (Stats, Report) {
         }
     }
     st.section("constructor_grids", &mut mark);
+
+    // ordering of arbitrary pairs (near and far apart, both signs, the limits): every operator
+    for kind in [0u8, 1] {
+        let mut vals: Vec<i128> = if kind == 0 { pools::ym_edges() } else { pools::dt_edges() };
+        let mut sm = SplitMix(seed ^ 0x0d13 ^ kind as u64);
+        let lim = if kind == 0 { YM_MAX } else { DT_MAX };
+        for _ in 0..200 {
+            vals.push(sm.range_i128(-lim, lim));
+        }
+        if vals.len() > 900 {
+            let step = vals.len() as f64 / 900.0;
+            let mut t: Vec<i128> = (0..900).map(|k| vals[(k as f64 * step) as usize]).collect();
+            t.extend([-lim, lim, 0, -1, 1, lim - 1, 1 - lim]);
+            vals = t;
+        }
+        let vref = &vals;
+        let s = par_sweep((vals.len() * vals.len()) as u64, 1 << 14, |range, st| {
+            for k in range {
+                let (a, b) = (vref[k as usize / vref.len()], vref[k as usize % vref.len()]);
+                st.evaluations += 1;
+                if (a - b).abs() > lim {
+                    st.nontrivial_enum += 1;
+                }
+                if let Err(m) = check_order_pair(kind, a, b) {
+                    st.fail(k, Case::new(P, "order_pair", vec![kind as i128, a, b], vec![]), m);
+                    return;
+                }
+            }
+        });
+        st.merge(s);
+    }
+    st.section("ordering_of_pairs", &mut mark);
     let _ = ad::in_range;
 
     let rep = Report {
